@@ -521,6 +521,9 @@ where
             if everywhere_at_rat() == 0 {
                 return inconsistent(1972);
             }
+            if let Err(code) = mean_variance_shapes::<T>(&xs, crate::shapes::key_of(args), 19100, &|v: &T| v.enc()) {
+                return inconsistent(code);
+            }
             l(vec![
                 la::f1_score::<T>(p, r).enc(),
                 la::mean(xs.iter().cloned()).enc(),
@@ -686,6 +689,61 @@ fn everywhere_at_rat() -> usize {
     ran
 }
 
+// ------------------------------------------------------------------ iterator SHAPES at the hand-off
+/// `mean`, `variance` and `softmax` take an ITERATOR: the same numbers through every iterator SHAPE
+/// (crate::shapes: lower-bound-0 adaptors, custom and lying size hints, a not-fused iterator, ...)
+/// must give the observation of the exact-size `xs.iter().cloned()` (`enc` of every scalar).
+/// Code = base + 20 * routine + shape (routine 0 mean, 1 variance, 2 softmax).  `mean` never
+/// consults the hint, so every lying hint is compared; `variance` / `softmax` collect the iterator
+/// first: a lying lower bound of usize::MAX (shapes 12 / 15) makes `collect` panic with "capacity
+/// overflow" (non-zero-sized elements) - accepted there: the canonical answer or a panic
+/// (code base + 60 + shape otherwise).
+fn mean_variance_shapes<E>(xs: &[E], key: u64, base: i64, enc: &dyn Fn(&E) -> Sx) -> Result<(), i64>
+where
+    E: Numeric,
+{
+    use crate::shapes::{self, with_shape};
+    use easy_ml::linear_algebra as la;
+    let obs = |r: Option<E>| r.map(|v| enc(&v));
+    let mean0 = obs(guarded(|| la::mean(xs.iter().cloned())));
+    let var0 = obs(guarded(|| la::variance(xs.iter().cloned())));
+    for shape in shapes::plan(key, &shapes::LYING) {
+        if obs(with_shape!(shape, xs.to_vec(), |it| guarded(|| la::mean(it)))) != mean0 {
+            return Err(base + shape as i64);
+        }
+        let var = obs(with_shape!(shape, xs.to_vec(), |it| guarded(|| la::variance(it))));
+        if shapes::lower_is_max(shape) {
+            if var.is_some() && var != var0 {
+                return Err(base + 60 + shape as i64);
+            }
+        } else if var != var0 {
+            return Err(base + 20 + shape as i64);
+        }
+    }
+    Ok(())
+}
+
+fn softmax_shapes<E>(xs: &[E], key: u64, base: i64, enc: &dyn Fn(&E) -> Sx) -> Result<(), i64>
+where
+    E: easy_ml::numeric::extra::Real,
+{
+    use crate::shapes::{self, with_shape};
+    use easy_ml::linear_algebra as la;
+    let obs = |r: Option<Vec<E>>| r.map(|v| l(v.iter().map(enc).collect()));
+    let soft0 = obs(guarded(|| la::softmax(xs.iter().cloned())));
+    for shape in shapes::plan(key, &shapes::LYING) {
+        let soft = obs(with_shape!(shape, xs.to_vec(), |it| guarded(|| la::softmax(it))));
+        if shapes::lower_is_max(shape) {
+            if soft.is_some() && soft != soft0 {
+                return Err(base + 60 + shape as i64);
+            }
+        } else if soft != soft0 {
+            return Err(base + 40 + shape as i64);
+        }
+    }
+    Ok(())
+}
+
 // ------------------------------------------------------------------ a user-defined whole-number type
 /// The BigInt wrapper of src/using_custom_types.rs: every operation `Numeric` asks for, division
 /// truncating toward zero (and total: x / 0 = 0, as the model's Z.quot) — NOT a field, so
@@ -845,6 +903,9 @@ where
     };
     let matrix = Matrix::from_flat_row_major((rows, cols), data.clone());
     let tensor = Tensor::from([(dim(0), rows), (dim(1), cols)], data);
+    if let Err(code) = mean_variance_shapes::<T>(&xs, crate::shapes::key_of(args), 19200, &|v: &T| v.wenc()) {
+        return inconsistent(code);
+    }
     let mut out = vec![
         scalar(guarded(|| la::mean(xs.iter().cloned()))),
         scalar(guarded(|| la::variance(xs.iter().cloned()))),
@@ -1007,6 +1068,13 @@ where
     let (Some(det_m), Some(det_t), Some(inv_m), Some(inv_t)) = (det_m, det_t, inv_m, inv_t) else {
         return inconsistent(1997);
     };
+    // (a third of the cases only: at Record element types every encoded scalar costs a reverse sweep
+    // of a tape that every extra call lengthens)
+    let key = xs.iter().fold(n as u64, |h, x| crate::shapes::key_of(&[z(h as i64), enc(x)]));
+    if key % 3 != 0 {
+    } else if let Err(code) = mean_variance_shapes::<E>(xs, key, 19300, enc).and_then(|_| softmax_shapes::<E>(xs, key, 19300, enc)) {
+        return inconsistent(code);
+    }
     let product = guarded(|| &matrix * &matrix).map(|r| l(r.row_major_iter().map(|x| enc(&x)).collect()));
     let product2 = guarded(|| matrix.clone() * matrix.clone()).map(|r| l(r.row_major_iter().map(|x| enc(&x)).collect()));
     if product != product2 {
